@@ -242,7 +242,8 @@ func expectedMessage(p *ref.Parsed) *pb.QuoteV4 {
 
 // c09JudgeRaw compares the library parser with the reference on one input.
 func c09JudgeRaw(r *mc.Run, c rawCase, kind string) {
-	q, err := safeToProto(c.raw)
+	in := append(make([]byte, 0, len(c.raw)+64), c.raw...) // the caller's own buffer, overwritten after the checks below
+	q, err := safeToProto(in)
 	p, rerr := ref.ParseQuote(c.raw)
 	out := verdict(err)
 	switch {
@@ -267,6 +268,15 @@ func c09JudgeRaw(r *mc.Run, c rawCase, kind string) {
 		if berr != nil || !bytes.Equal(back, c.raw) {
 			r.Violate("roundtrip:bytes:"+kind, c.id, "serialising the parsed quote does not reproduce the input byte for byte ("+errStr(berr)+")", map[string]any{"raw_quote_hex": hexs(c.raw)})
 			out = "accept-bad-roundtrip"
+		}
+		// the result is the caller's from here on: re-using the input buffer (all of its capacity) must not change it
+		in = in[:cap(in)]
+		for i := range in {
+			in[i] = ^in[i] ^ 0x5a
+		}
+		if !proto.Equal(q, want) {
+			r.Violate("parse:result-shares-input:"+kind, c.id, "the parsed quote changed when the input buffer was overwritten afterwards: "+firstDiff(q, want), nil)
+			out = "accept-aliases-input"
 		}
 	}
 	r.Eval(c.id, true, kind+":"+out)
